@@ -232,6 +232,9 @@ MOZ_QUERIES = [
     ("foo/bar/baz.ftl", "foo/**/*.ftl"), ("foo/baz.ftl", "foo/**/*.ftl"), ("foo/bar", "foo/*/bar"),
     ("foo/bar", "foo"), ("a.b", "a.b"), ("axb", "a.b"), ("x/y", ""), ("browser/a", "**/a"),
     ("l/de/x.properties", "l/*/x.properties"),
+    # near-identical patterns: a cache keyed by anything coarser than the pattern confuses them
+    ("foo/bar/baz.ftl", "FOO/**/*.ftl"), ("a.b", "A.B"), ("A.B", "A.B"), ("foo/bar", "foo/*/bar "),
+    ("foo/x/bar", "foo/*/bar"), ("foo/x/bar", "foo/**/bar"), ("l/de/x.properties", "l/*/x.properties/"),
 ]
 MATCHERS = [
     {"pattern": "/r/{locale}/**/*.ftl", "env": {}},
@@ -649,9 +652,11 @@ def fork_sequence(specs, texts, timeout=120):
             data = json.dumps(run_sequence(specs, texts))
             with os.fdopen(w, "w") as f:
                 f.write(data)
-        except BaseException as ex:  # noqa
+        except BaseException:  # noqa
+            import traceback
             try:
-                os.write(2, ("c18 child: %r\n" % (ex,)).encode())
+                with os.fdopen(w, "w") as f:
+                    f.write(json.dumps({"child_raised": traceback.format_exc()[-1500:]}))
             except Exception:  # noqa
                 pass
             code = 1
@@ -665,7 +670,7 @@ def join_sequence(pid, r):
         data = f.read()
     os.waitpid(pid, 0)
     if not data:
-        raise RuntimeError("forked history produced no output")
+        return {"child_raised": "no output (killed or timed out)"}
     return json.loads(data)
 
 
@@ -983,8 +988,9 @@ def judge(chk, tables, base_by_id, parse_base, seq, run, texts, where):
 
 
 # ======================================================================= union ===
-def union_suite(chk, rng, model):
-    """compareProjects over a generated tree: permutations of content <-> name, single files"""
+def union_suite(chk, rng, model, prefix=(), texts=None, u=0):
+    """compareProjects over a generated tree: permutations of content <-> name, single files;
+    each run in its own child, after the operations of `prefix` when given"""
     import itertools
     pairs = []
     for fmt in ("properties", "dtd", "ftl", "inc", "ini", "po"):
@@ -1006,7 +1012,7 @@ def union_suite(chk, rng, model):
         prog.append({"kind": kind, "perm": perm, "only": only})
     results = []
     for jb in prog:
-        r = run_forked_fn(union_job, (pairs, ext, jb))
+        r = run_forked_fn(union_job, (pairs, ext, jb, list(prefix), texts))
         if "child_raised" in r:
             chk.fail("multi-file-run-raised", jb, r["child_raised"])
             return
@@ -1015,7 +1021,7 @@ def union_suite(chk, rng, model):
     chk.sample({"suite": "UNION", "files": ref["names"], "summary": ref["summary"]})
     singles = [r for jb, r in zip(prog, results) if jb["kind"] == "single"]
     for jb, r in zip(prog, results):
-        chk.count(("union", jb["kind"], tuple(jb["perm"]), jb["only"]))
+        chk.count(("union", u, jb["kind"], tuple(jb["perm"]), jb["only"]))
         if jb["kind"] == "multi":
             if r["by_content"] != ref["by_content"] or r["summary"] != ref["summary"]:
                 chk.fail("multi-file-run-depends-on-order", {"perm": jb["perm"]},
@@ -1059,7 +1065,7 @@ def union_suite(chk, rng, model):
                           for c in range(n) for loc in locs]])
             cases.append({"perm": jb["perm"]})
         outs = model.call(reqs)
-        chk.correspond("UNION", cases, impl, outs)
+        chk.correspond("UNION" if not u else "UNION-after-history-%d" % u, cases, impl, outs)
 
 
 def run_forked_fn(fn, args, timeout=300):
@@ -1092,9 +1098,11 @@ def run_forked_fn(fn, args, timeout=300):
     return json.loads(data)
 
 
-def union_job(pairs, ext, jb):
+def union_job(pairs, ext, jb, prefix=(), texts=None):
     from compare_locales.paths import ProjectConfig
     from compare_locales.compare import compareProjects
+    if prefix:
+        run_sequence(prefix, texts)
     tmp = tempfile.mkdtemp(prefix="c18u_")
     try:
         names = {}
@@ -1205,6 +1213,34 @@ def witnesses(chk):
                  {"first": before, "after_edit": after, "fresh_config_with_the_rule": fresh})
 
 
+def inventory_obligation(chk):
+    """the readable form of theorem C18_inventory: which items differ"""
+    sys.path.insert(0, os.path.join(common.VERIF, "tr"))
+    try:
+        import facts_c18
+        inv = set(facts_c18.inventory())
+    except Exception as ex:  # noqa
+        chk.obligations.append(common.Obligation("state inventory readable diff", "translator", False,
+                                                 "scanner raised: %r" % (ex,)))
+        return
+    finally:
+        sys.path.pop(0)
+    src = open(os.path.join(common.COQ, "Model", "History.v")).read()
+    modelled = set(_re.findall(r'Item "([^"]*)" "([^"]*)" "([^"]*)" \w+', src))
+    new = sorted(inv - modelled)
+    gone = sorted(modelled - inv)
+    detail = ""
+    if new:
+        detail += "state in the package that the model does not account for: " + \
+            "; ".join("%s:%s [%s]" % t for t in new) + ". "
+    if gone:
+        detail += "state the model lists that the package no longer has: " + \
+            "; ".join("%s:%s [%s]" % t for t in gone) + "."
+    chk.obligations.append(common.Obligation(
+        "state inventory of the package = modelled_state (%d items; readable form of C18_inventory)"
+        % len(inv), "translator", not new and not gone, detail))
+
+
 # the entries proposed for /verif/known_findings.json (the coordinator decides); with
 # VERIF_C18_PROPOSED_FINDINGS=1 the check treats them as listed, to show that nothing else fails
 PROPOSED_FINDINGS = [
@@ -1235,26 +1271,15 @@ PROPOSED_FINDINGS = [
 
 # ========================================================================= run ===
 def draw_history(rng, ops, weights, n):
-    return [rng.choices(ops, weights)[0] for _ in range(n)]
+    return [rng.choices(ops, weights)[0] if weights else rng.choice(ops) for _ in range(n)]
 
 
 WEIGHT = {"parse": 6, "rewalk": 1.5, "compare": 5, "lint": 3, "merge": 2.5, "serialize": 2.5,
           "filter": 3, "reconfig": 0.6, "moz": 1.5, "matcher": 2}
 
 
-def run(chk, runner_ok):
-    rng = chk.rng
-    model = Model("C18") if runner_ok else None
-    check_parser_table()
-    if os.environ.get("VERIF_C18_PROPOSED_FINDINGS") == "1":
-        chk.known.extend(f for f in PROPOSED_FINDINGS
-                         if not any(k["signature"] == f["signature"] for k in chk.known))
-        chk.notes.append("VERIF_C18_PROPOSED_FINDINGS=1: the three proposed findings are treated as listed")
-    t0 = time.time()
-    # ---- the minimal witnesses of the known history dependences (always first) ----
-    witnesses(chk)
-    # ---- pool and fresh baselines (one interpreter per operation) -----------------
-    texts, ops = build_pool(rng)
+def measure(texts, ops, par=10):
+    """every operation of the pool alone in a fresh interpreter -> tables for oracle and model"""
     jobs, meta = [], []
     for o in ops:
         if o["k"] == "filter":
@@ -1278,7 +1303,7 @@ def run(chk, runner_ok):
                 for k in _re.findall(r"^(_junk_\d+_\d+-\d+)", texts[o["f"]][t], _re.M)):
             jobs.append([dict(o, preset=500000)])
             meta.append(("nocoll", o["id"], None))
-    fresh = run_fresh(jobs, texts, par=chk.n(10, 12))
+    fresh = run_fresh(jobs, texts, par=par)
     base_by_id, base_rec, parse_base, flagrows, filt_rows, nocoll = {}, {}, {}, {}, [], {}
     intern = Interner()
     for (kind, a, b), out in zip(meta, fresh):
@@ -1302,57 +1327,119 @@ def run(chk, runner_ok):
         base_rec[a] = dict(base_rec[a], res=rec["res"])
     tables = Tables(texts, ops, [base_rec.get(o["id"], {"res": None, "state": None}) for o in ops],
                     flagrows, filt_rows, intern)
-    chk.notes.append("pool: %d operations, %d fresh interpreters for the baselines (%.1fs)"
-                     % (len(ops), len(jobs), time.time() - t0))
-    for f in range(7):
-        chk.hist("texts_per_format", FMT[f] + ":%d" % len(texts[f]))
-    # ---- histories ------------------------------------------------------------------
-    per_kind = {}
-    for o in ops:
-        per_kind[o["k"]] = per_kind.get(o["k"], 0) + 1
-    weights = [WEIGHT[o["k"]] / per_kind[o["k"]] for o in ops]
-    nseq = chk.n(600, 6000)
-    seqs = []
-    for i in range(nseq):
-        n = 30 if i % 15 == 14 else rng.randint(2, 6)
-        seqs.append(draw_history(rng, ops, weights, n))
-    # targeted: every operation once directly after each of a few state-heavy prefixes
-    heavy = [o for o in ops if o["k"] in ("parse", "compare")][:: max(1, len(ops) // 12)]
-    for o in ops:
-        seqs.append([rng.choice(heavy), o])
+    return tables, base_by_id, parse_base, intern, len(jobs)
+
+
+def check_histories(chk, model, texts, seqs, tables, base_by_id, parse_base, intern, where="HISTORY"):
+    """run the sequences (forked), apply the oracle and compare with the model"""
     runs = run_forked_many(seqs, texts)
-    chk.notes.append("histories: %d sequences, %d operations in total (%.1fs since start)"
-                     % (len(seqs), sum(len(s) for s in seqs), time.time() - t0))
+    crashed = {i for i, rn in enumerate(runs) if "child_raised" in rn}
+    for i in sorted(crashed):
+        chk.fail("history-run-raised", {"sequence": describe(seqs[i], texts)}, runs[i]["child_raised"])
+    seqs = [s_ for i, s_ in enumerate(seqs) if i not in crashed]
+    runs = [r_ for i, r_ in enumerate(runs) if i not in crashed]
     for seq, rn in zip(seqs, runs):
         chk.hist("history_length", len(seq))
-        judge(chk, tables, base_by_id, parse_base, seq, rn, texts, "HISTORY")
-    chk.sample({"suite": "HISTORY", "sequence": describe(seqs[0], texts),
-                "results": [r["res"] for r in runs[0]["ops"]]})
-    # ---- the state machine of the model against the implementation ---------------------
+        judge(chk, tables, base_by_id, parse_base, seq, rn, texts, where)
+    if not seqs:
+        return seqs, runs
     if model is not None:
         reqs = [(0, tables.request(seq)) for seq in seqs]
         outs = model.call(reqs, chunk=200, timeout=900)
         impl = [impl_view(seq, rn, intern) for seq, rn in zip(seqs, runs)]
-        # a collision marker of the model (-7) stands for "no prediction": the oracle above
-        # classifies these; align them so that only real disagreements remain
+        # a collision marker of the model (-7) means "a junk key collides in this history, no
+        # prediction"; it must coincide with the harness's own computation of the collision (then
+        # the oracle above has classified the case), otherwise it stays a disagreement
         collisions = 0
-        for seq, a, b in zip(seqs, impl, outs):
-            for x, y in zip(a[0], b[0]):
-                if y[0] == [1, [-7]]:
-                    collisions += 1
-                    y[0] = x[0]
-        chk.notes.append("model reported %d operations with a junk-key collision (no prediction)" % collisions)
-        chk.correspond("HISTORY", [describe(s, texts) for s in seqs], impl, outs)
+        for seq, rn, a, b in zip(seqs, runs, impl, outs):
+            for i, (x, y) in enumerate(zip(a[0], b[0])):
+                o = seq[i]
+                if o["k"] in ("compare", "lint", "merge", "serialize"):
+                    j0 = eff_counter(rn["ops"][i - 1]["state"] if i else None, o["f"])
+                    mine = collides(tables, o, j0)
+                    if (y[0] == [1, [-7]]) != mine:
+                        y[0] = [1, [-7, int(mine)]]       # the two computations differ: disagreement
+                    elif mine:
+                        collisions += 1
+                        y[0] = x[0]
+        chk.notes.append("%s: the model reported %d operations with a junk-key collision (no prediction; "
+                         "same verdict as the harness's own computation)" % (where, collisions))
+        chk.correspond(where, [describe(s, texts) for s in seqs], impl, outs)
+    return seqs, runs
+
+
+def history_round(chk, rng, model, nseq, rnd, t0):
+    texts, ops = build_pool(rng)
+    tables, base_by_id, parse_base, intern, njobs = measure(texts, ops, par=chk.n(10, 12))
+    chk.notes.append("round %d: pool of %d operations, %d fresh interpreters for the baselines "
+                     "(%.1fs since start)" % (rnd, len(ops), njobs, time.time() - t0))
+    for f in range(7):
+        chk.hist("texts_per_format", FMT[f] + ":%d" % len(texts[f]))
+    per_kind = {}
+    for o in ops:
+        per_kind[o["k"]] = per_kind.get(o["k"], 0) + 1
+    weights = [WEIGHT[o["k"]] / per_kind[o["k"]] for o in ops]
+    seqs = []
+    for i in range(nseq):
+        n = 30 if i % 15 == 14 else rng.randint(2, 6)
+        seqs.append(draw_history(rng, ops, weights, n))
+    # targeted: every operation once directly after a state-heavy prefix
+    heavy = [o for o in ops if o["k"] in ("parse", "compare")][:: max(1, len(ops) // 12)]
+    for o in ops:
+        seqs.append([rng.choice(heavy), o])
+    # exhaustive ordered pairs inside each family that shares a cache or a parser singleton
+    fam = {}
+    for o in ops:
+        key = {"moz": "moz", "matcher": "matcher"}.get(o["k"])
+        if o["k"] in ("filter", "reconfig"):
+            key = "cfg%d" % o["c"]
+        if o["k"] in ("parse", "rewalk"):
+            key = "parser%d" % o["f"]
+        if key:
+            fam.setdefault(key, []).append(o)
+    for key, members in sorted(fam.items()):
+        for a in members:
+            for b in members:
+                seqs.append([a, b])
+    seqs, runs = check_histories(chk, model, texts, seqs, tables, base_by_id, parse_base, intern,
+                                 "HISTORY" if rnd == 0 else "HISTORY-round%d" % rnd)
+    chk.notes.append("round %d: %d sequences, %d operations in total (%.1fs since start)"
+                     % (rnd, len(seqs), sum(len(s) for s in seqs), time.time() - t0))
+    if rnd == 0 and seqs:
+        chk.sample({"suite": "HISTORY", "sequence": describe(seqs[0], texts),
+                    "results": [r["res"] for r in runs[0]["ops"]]})
+    return texts, ops
+
+
+def run(chk, runner_ok):
+    rng = chk.rng
+    model = Model("C18") if runner_ok else None
+    check_parser_table()
+    inventory_obligation(chk)
+    if os.environ.get("VERIF_C18_PROPOSED_FINDINGS") == "1":
+        chk.known.extend(f for f in PROPOSED_FINDINGS
+                         if not any(k["signature"] == f["signature"] for k in chk.known))
+        chk.notes.append("VERIF_C18_PROPOSED_FINDINGS=1: the three proposed findings are treated as listed")
+    t0 = time.time()
+    # ---- the minimal witnesses of the known history dependences (always first) ----
+    witnesses(chk)
+    # ---- histories: per round a new pool, its fresh baselines, its sequences -----------
+    rounds = chk.n(1, 3)
+    for rnd in range(rounds):
+        texts, ops = history_round(chk, rng, model, chk.n(600, 6000) // rounds, rnd, t0)
+    if model is not None:
         # junk key rendering
         ks = [(rng.randint(0, 5000), rng.randint(0, 300), rng.randint(0, 300)) for _ in range(200)] + \
              [(0, 0, 0), (10, 100, 1000), (9, 99, 999)]
         outs = model.call([(1, list(k)) for k in ks])
         chk.correspond("JUNK-KEY", [list(k) for k in ks],
                        [common.s2l("_junk_%d_%d-%d" % k) for k in ks], outs)
-    chk.notes.append("oracle + model correspondence done %.1fs since start" % (time.time() - t0))
     # ---- multi-file runs -------------------------------------------------------------
-    union_suite(chk, rng, model)
-    chk.notes.append("union suite done %.1fs since start" % (time.time() - t0))
+    for u in range(chk.n(1, 4)):
+        prefix = draw_history(rng, [o for o in ops if o["k"] in ("parse", "compare", "lint", "filter", "moz")],
+                              None, rng.randint(2, 5)) if u else []
+        union_suite(chk, rng, model, prefix, texts, u)
+    chk.notes.append("union suites done %.1fs since start" % (time.time() - t0))
     chk.trusted.append("fresh interpreter = `python -m harness.props.c18 --baseline` per operation; "
                        "histories run in children forked from a parent that has only imported the package")
     chk.trusted.append("modelled only: which process state each operation reads/writes; the purity of the "
@@ -1360,23 +1447,70 @@ def run(chk, runner_ok):
                        "(oracle), as is the absence of state inside expat, minidom, fluent.syntax")
 
 
+def undescribe(desc):
+    """the inverse of describe(): texts registry and operation specs of a recorded sequence"""
+    texts = {f: [] for f in range(7)}
+    ops = []
+
+    def tid(f, t):
+        if t not in texts[f]:
+            texts[f].append(t)
+        return texts[f].index(t)
+    for d in desc:
+        o = dict(d)
+        if "f" in o:
+            o["f"] = FMT.index(o["f"])
+            for fld in ("t", "ref", "l10n", "cur", "old"):
+                if fld in o and o[fld] is not None:
+                    o[fld] = tid(o["f"], o[fld])
+            if "rs" in o:
+                o["rs"] = [tid(o["f"], t) for t in o["rs"]]
+        ops.append(o)
+    # every text also as a parse operation (the model's walk table needs it)
+    seq = list(ops)
+    for f in range(7):
+        for i in range(len(texts[f])):
+            ops.append({"k": "parse", "f": f, "t": i})
+    for i, o in enumerate(ops):
+        o["id"] = i
+    return texts, ops, seq
+
+
 def replay(chk, path):
+    """re-run the recorded failing sequences: each in a forked child against fresh interpreters"""
     data = json.load(open(path))
-    rc = 0
+    model = Model("C18") if os.path.exists(os.path.join(common.BIN, "model_C18")) else None
+    check_parser_table()
+    n = 0
     for f in data.get("failures", []):
-        print("signature:", f["signature"])
-        print("case:", json.dumps(f["case"], indent=1)[:3000])
-        print("detail:", json.dumps(f["detail"], indent=1)[:3000])
-        rc = 1
-    if any(f["signature"] in ("junk-key-collides-with-entity-key", "rewalk-inc-filter-state",
-                              "filtercache-stale-after-config-edit") for f in data.get("failures", [])):
-        witnesses(chk)
-        for f in chk.failures:
-            print("still fails:", f["signature"], json.dumps(f["detail"])[:500])
+        print("recorded:", f["signature"])
+        case = f["case"]
+        if not (isinstance(case, dict) and isinstance(case.get("sequence"), list)
+                and case["sequence"] and isinstance(case["sequence"][0], dict)):
+            continue
+        texts, ops, seq = undescribe(case["sequence"])
+        tables, base_by_id, parse_base, intern, _ = measure(texts, ops, par=6)
+        check_histories(chk, model, texts, [seq], tables, base_by_id, parse_base, intern, "REPLAY")
+        n += 1
     for d in data.get("disagreements", []):
-        print("disagreement", json.dumps(d)[:3000])
-        rc = 1
-    return rc
+        print("recorded disagreement in suite", d["suite"])
+        if d["suite"].startswith("HISTORY") and isinstance(d["case"], list):
+            texts, ops, seq = undescribe(d["case"])
+            tables, base_by_id, parse_base, intern, _ = measure(texts, ops, par=6)
+            check_histories(chk, model, texts, [seq], tables, base_by_id, parse_base, intern, "REPLAY")
+            n += 1
+    if any(f["signature"] in [p["signature"] for p in PROPOSED_FINDINGS] for f in data.get("failures", [])):
+        witnesses(chk)
+    for f in chk.failures:
+        print("still fails:", f["signature"], json.dumps(f["case"])[:1500])
+        print("   ", json.dumps(f["detail"])[:1500])
+    for info in chk.known_seen.values():
+        print("still fails (listed finding):", info["finding"]["signature"], "x", info["n"])
+    for d in chk.disagreements:
+        print("still disagrees with the model:", json.dumps(d)[:2000])
+    print("replayed %d sequence(s): %d failing, %d model disagreement(s)"
+          % (n, len(chk.failures) + len(chk.known_seen), len(chk.disagreements)))
+    return 1 if chk.failures or chk.known_seen or chk.disagreements else 0
 
 
 if __name__ == "__main__":
